@@ -163,33 +163,17 @@ example : ((run (LocalSid.proto true) [.poll 0 0 false, .poll 1 1 true, .maxStre
 
 /-! ### 6. peer transport parameters (`ArcParameters::remote_ready`), any number of waiting tasks -/
 
-/-- the pinned code: `ArcParameters::on_conn_error` drops the `Vec<Waker>` without waking it. -/
-theorem params_pinned_no_lost_wakeup_fails :
-    ¬ (∀ sched : List Params.Op,
-        ∀ x ∈ (run (Params.proto false) sched).slp, ¬ cond (Params.proto false) (run (Params.proto false) sched).st x) := by
-  intro h
-  have := h [.poll 0 0, .connError] ⟨0, 0, .poll 0 0⟩ (List.mem_cons_self ..)
-  apply this
-  unfold cond; decide
-
-theorem params_pinned_close_wakes_all_fails :
-    ¬ (∀ sched : List Params.Op, ∀ x ∈ (run (Params.proto false) sched).slp,
-        x.w ∈ (Params.step false (run (Params.proto false) sched).st .connError).2.wakes) := by
-  intro h
-  have := h [.poll 0 0] ⟨0, 0, .poll 0 0⟩ (List.mem_cons_self ..)
-  revert this; decide
-
-/-- with repo_patches/fix-C16-params-wake-on-error.diff: full statement, ALL schedules. -/
+/-- full statement, ALL schedules, any number of waiting tasks (the close path wakes through `Drop for Parameters`). -/
 theorem params_no_lost_wakeup (sched : List Params.Op) :
-    ∀ x ∈ (run (Params.proto true) sched).slp, ¬ cond (Params.proto true) (run (Params.proto true) sched).st x :=
+    ∀ x ∈ (run Params.proto sched).slp, ¬ cond Params.proto (run Params.proto sched).st x :=
   no_lost_wakeup _ Params.sound.toSound sched (fun _ _ => trivial)
 
 theorem params_close_wakes_all (sched : List Params.Op) :
-    ∀ x ∈ (run (Params.proto true) sched).slp,
-      x.w ∈ (Params.step true (run (Params.proto true) sched).st .connError).2.wakes :=
+    ∀ x ∈ (run Params.proto sched).slp,
+      x.w ∈ (Params.step (run Params.proto sched).st .connError).2.wakes :=
   close_wakes_all _ Params.sound sched (fun _ _ => trivial)
 
-example : ((run (Params.proto true) [.poll 0 0, .recvParams, .poll 1 1, .poll 0 2]).slp.map (fun x => (x.t, x.w))) = [(0, 2), (1, 1)] := by
+example : ((run Params.proto [.poll 0 0, .recvParams, .poll 1 1, .poll 0 2]).slp.map (fun x => (x.t, x.w))) = [(0, 2), (1, 1)] := by
   decide
 
 /-! ### 7. keys (`KeysState`, `OneRttKeysState`) — one slot, a second waker is `unreachable!` (explicit panic outcome) -/
